@@ -132,7 +132,7 @@ def one_short_write(res, W, rng, plen, plan, gen):
 # (b) concurrent senders / (c) receivers
 
 
-def sender_scenario(W, nthreads, nframes, piece, line_points, with_recv=False, slow=None, foreign=False):
+def sender_scenario(W, nthreads, nframes, piece, line_points, with_recv=False, slow=None, foreign=False, fragmenting=False, aged=0):
     """returns a function(strategy) -> observation dict.  slow=(send_delay, socket_timeout): every transport write
     takes virtual time and the socket has a timeout shorter than a whole frame takes."""
 
@@ -143,10 +143,16 @@ def sender_scenario(W, nthreads, nframes, piece, line_points, with_recv=False, s
             for i in range(3):
                 stream += R.encode(R.PING, b"pg%d" % i) + R.encode(R.TEXT, b"m%d" % i)
         w, conn, peer = H.connected_ws(after=stream, timeout=(slow[1] if slow else None))
+        if aged:
+            # the connection has already carried this many frames (single-threaded, before the race starts)
+            for i in range(aged):
+                w.send_binary(b"")
         conn.write_plan = itertools.cycle([piece])
         if slow:
             conn.send_delay = slow[0]
         req_len = len(conn.sent)
+        del conn.sent_pieces[:]
+        conn.sent_pieces.append(("main", bytes(req_len)))
         errors = []
         got = []
         timed_out = []
@@ -154,7 +160,12 @@ def sender_scenario(W, nthreads, nframes, piece, line_points, with_recv=False, s
         def sender(t):
             for k in range(nframes):
                 try:
-                    if (t + k) % 2:
+                    if fragmenting and t == 0:
+                        # this thread sends its messages in two fragments through send_frame() (the idiom of its docstring)
+                        body = b"F0K%d|" % k + b"f" * (4 + k)
+                        w.send_frame(W.ABNF.create_frame(body[:3], W.ABNF.OPCODE_BINARY, 0))
+                        w.send_frame(W.ABNF.create_frame(body[3:], W.ABNF.OPCODE_CONT, 1))
+                    elif (t + k) % 2:
                         w.send_binary(b"T%dK%d|" % (t, k) + bytes([65 + t]) * (3 + t))
                     else:
                         w.send(("t%dk%d|" % (t, k)) + chr(97 + t) * (2 + k))
@@ -193,12 +204,16 @@ def sender_scenario(W, nthreads, nframes, piece, line_points, with_recv=False, s
     return scen
 
 
-def expected_sends(nthreads, nframes):
+def expected_sends(nthreads, nframes, fragmenting=False):
     exp = {}
     for t in range(nthreads):
         lst = []
         for k in range(nframes):
-            if (t + k) % 2:
+            if fragmenting and t == 0:
+                body = b"F0K%d|" % k + b"f" * (4 + k)
+                lst.append((R.BINARY, body[:3]))
+                lst.append((R.CONT, body[3:]))
+            elif (t + k) % 2:
                 lst.append((R.BINARY, b"T%dK%d|" % (t, k) + bytes([65 + t]) * (3 + t)))
             else:
                 lst.append((R.TEXT, (("t%dk%d|" % (t, k)) + chr(97 + t) * (2 + k)).encode()))
@@ -206,7 +221,7 @@ def expected_sends(nthreads, nframes):
     return exp
 
 
-def judge_senders(res, obs, S, nthreads, nframes, tag, with_recv=False):
+def judge_senders(res, obs, S, nthreads, nframes, tag, with_recv=False, fragmenting=False):
     conn = obs["conn"]
     stream = bytes(conn.sent[obs["req_len"]:])
     frames, pos = R.decode_all(stream)
@@ -224,7 +239,7 @@ def judge_senders(res, obs, S, nthreads, nframes, tag, with_recv=False):
     for actor, piece in conn.sent_pieces:
         owners.extend([actor] * len(piece))
     owners = owners[obs["req_len"]:]
-    exp = expected_sends(nthreads, nframes)
+    exp = expected_sends(nthreads, nframes, fragmenting)
     per_thread = {k: [] for k in exp}
     pongs = []
     mid_frame_switch = False
@@ -552,6 +567,13 @@ def run(res, tier, seed, shard, nshards):
     # sender threads that the threading module does not know about (started through _thread / by a C extension / by an embedding host)
     jobs.append(("SF", 2, 2, 3, "dfs", 1500 if quick else 20000))
     jobs.append(("SF", 3, 2, 4, "random", 300 if quick else 5000))
+    # one sender fragments its messages itself (two send_frame() calls per message)
+    jobs.append(("SFR", 2, 2, 3, "dfs", 1500 if quick else 20000))
+    jobs.append(("SFR", 3, 2, 5, "random", 300 if quick else 5000))
+    jobs.append(("SFR", 2, 1, 2, "sweep-line", 400 if quick else 100000))
+    # a connection that has already carried 4094 / 4095 / 8190 frames (per-connection state that is refilled every N frames)
+    for aged in ((4094, 4095) if quick else (4094, 4095, 8190, 8191, 16382)):
+        jobs.append(("SAG", 2, 1, 100, "sweep-line", 250 if quick else 100000, aged))
     # slow transport: each write takes 0.05 s, the socket timeout (0.2 s) is shorter than a frame takes
     jobs.append(("SLOW", 3, 2, 4, "random", 200 if quick else 4000))
     jobs.append(("SLOW", 3, 1, 4, "dfs", 400 if quick else 10000))
@@ -585,6 +607,17 @@ def run(res, tier, seed, shard, nshards):
             tag = ("senders", nt, nf, piece, mode, with_recv)
             explore(res, lambda: sender_scenario(W, nt, nf, piece, line, with_recv),
                     lambda obs, S: _js(res, obs, S, nt, nf, tag, with_recv), tag, m, budget, seed * 1000 + ji, "sender_schedules")
+        elif job[0] == "SFR":
+            _, nt, nf, piece, mode, budget = job
+            line = mode.endswith("-line")
+            tag = ("senders-one-fragmenting", nt, nf, piece, mode)
+            explore(res, lambda: sender_scenario(W, nt, nf, piece, line, False, fragmenting=True),
+                    lambda obs, S: judge_senders(res, obs, S, nt, nf, tag, False, fragmenting=True), tag, mode.replace("-line", ""), budget, seed * 1000 + ji, "sender_schedules")
+        elif job[0] == "SAG":
+            _, nt, nf, piece, mode, budget, aged = job
+            tag = ("senders-aged-connection", nt, nf, aged, mode)
+            explore(res, lambda: sender_scenario(W, nt, nf, piece, True, False, aged=aged),
+                    lambda obs, S: _js(res, obs, S, nt, nf, tag, False), tag, mode.replace("-line", ""), budget, seed * 1000 + ji, "sender_schedules")
         elif job[0] == "SF":
             _, nt, nf, piece, mode, budget = job
             tag = ("senders-foreign-threads", nt, nf, piece, mode)
